@@ -6,6 +6,7 @@ import (
 	"errors"
 	"fmt"
 	"io"
+	"strings"
 
 	"github.com/go-git/go-git/v6/plumbing"
 	"github.com/go-git/go-git/v6/plumbing/format/packfile"
@@ -327,6 +328,15 @@ func referenceExists(s storer.ReferenceStorer, n plumbing.ReferenceName) (bool, 
 
 func updateReferences(st storage.Storer, req *packp.UpdateRequests, cmdStatus map[plumbing.ReferenceName]error, firstErr *error) {
 	for _, cmd := range req.Commands {
+		// Like git ("funny refname"), only names under refs/ can be pushed
+		// to: anything else would be resolved against the repository
+		// directory itself (HEAD, FETCH_HEAD, or, on a case-insensitive
+		// filesystem, CONFIG or INDEX).
+		if !strings.HasPrefix(cmd.Name.String(), "refs/") {
+			setStatus(cmdStatus, firstErr, cmd.Name, fmt.Errorf("%w: funny refname", ErrUpdateReference))
+			continue
+		}
+
 		var current *plumbing.Reference
 		ref, err := st.Reference(cmd.Name)
 		switch {
